@@ -55,8 +55,7 @@ fn with_capacity_addr(remaining: Ghost<nat>, cap: usize) -> (r: Vec<PeerAddr>)
 //@ extract p2p/src/msg.rs :: impl Readable for Locator::read
 //@   sigrewrite `fn read<R: Reader>(reader: &mut R) -> Result<Locator, ser::Error>` => `fn read_locator<R: Reader>(reader: &mut R) -> Result<Locator, ser::Error>`
 //@   rewrite `Vec::with_capacity(` => `with_capacity_hash(Ghost(reader.remaining()), `
-//@   rewrite `for _ in 0..len {` => `for i in 0..len`
-//@   rewrite `\t\t\thashes.push(Hash::read(reader)?);` => `\t\t{\n\t\t\thashes.push(Hash::read(reader)?);`
+//@   rewrite `for _ in 0..len {` => `for i in 0..len {`
 //@   ensures:
 //@+    r matches Ok(l) ==> l.hashes@.len() <= 20 && 1 + 32 * l.hashes@.len() == old(reader).remaining() - final(reader).remaining(),
 //@   loop 1:
@@ -69,8 +68,7 @@ fn with_capacity_addr(remaining: Ghost<nat>, cap: usize) -> (r: Vec<PeerAddr>)
 //@   sigrewrite `fn read<R: Reader>(reader: &mut R) -> Result<PeerAddrs, ser::Error>` => `fn read_peer_addrs<R: Reader>(reader: &mut R) -> Result<PeerAddrs, ser::Error>`
 //@   rewrite `return Ok(PeerAddrs { peers: vec![] });` => `return Ok(PeerAddrs { peers: Vec::new() });`
 //@   rewrite `Vec::with_capacity(` => `with_capacity_addr(Ghost(reader.remaining()), `
-//@   rewrite `for _ in 0..peer_count {` => `for i in 0..peer_count`
-//@   rewrite `\t\t\tpeers.push(PeerAddr::read(reader)?);` => `\t\t{\n\t\t\tpeers.push(PeerAddr::read(reader)?);`
+//@   rewrite `for _ in 0..peer_count {` => `for i in 0..peer_count {`
 //@   ensures:
 //@+    r matches Ok(p) ==> p.peers@.len() <= 256 && 4 + 7 * p.peers@.len() <= old(reader).remaining() - final(reader).remaining(),
 //@   loop 1:
